@@ -100,6 +100,11 @@ class Region:
             v = self.get(env, {'l': p['l'], 'p': p['p'][:-2]})
             if isinstance(v, tuple) and v and v[0] == 'some':
                 return v[1]
+        # payload of a caller-supplied enum value ('enum', variant index, variant name, payload tuple)
+        if len(p['p']) >= 2 and isinstance(p['p'][-1], dict) and 'f' in p['p'][-1] and isinstance(p['p'][-2], dict) and 'dc' in p['p'][-2]:
+            v = self.get(env, {'l': p['l'], 'p': p['p'][:-2]})
+            if isinstance(v, tuple) and v and v[0] == 'enum' and v[2] == p['p'][-2]['dc'] and p['p'][-1]['f'] < len(v[3]):
+                return v[3][p['p'][-1]['f']]
         # payloads of Result / ControlFlow values: (x as Ok).0, (x as Err).0, (x as Continue).0, (x as Break).0
         if len(p['p']) >= 2 and isinstance(p['p'][-1], dict) and 'f' in p['p'][-1] and isinstance(p['p'][-2], dict) and p['p'][-2].get('dc') in ('Ok', 'Err', 'Continue', 'Break'):
             v = self.get(env, {'l': p['l'], 'p': p['p'][:-2]})
@@ -185,6 +190,8 @@ class Region:
                 return 0 if v[0] == 'ok' else 1
             if isinstance(v, tuple) and v and v[0] in ('cf-continue', 'cf-break'):
                 return 0 if v[0] == 'cf-continue' else 1
+            if isinstance(v, tuple) and v and v[0] == 'enum':
+                return v[1]
             return UNKNOWN
         if k == 'agg' and rv.get('ak') == 'adt':
             ops = [self.opval(env, o) for o in rv['ops']]
@@ -360,6 +367,11 @@ def returns(mir, body, env0, call_oracle, field_oracle=None, depth=3):
             return UNKNOWN
         if nm.endswith('::from_residual'):
             return vals[0] if vals else UNKNOWN
+        if nm == 'std::cmp::Ordering::reverse' and vals:
+            v = vals[0]
+            if isinstance(v, tuple) and len(v) >= 3 and v[0] == 'adt' and v[1] == 'Ordering':
+                return ('adt', 'Ordering', {'Less': 'Greater', 'Greater': 'Less', 'Equal': 'Equal'}[v[2]])
+            return UNKNOWN
         if nm == 'std::option::Option::unwrap_or' and len(vals) == 2:
             if vals[0] == 'none':
                 return vals[1]
@@ -379,9 +391,12 @@ def returns(mir, body, env0, call_oracle, field_oracle=None, depth=3):
             e0 = {}
             for i, a in enumerate(vals):
                 if a is not UNKNOWN:
-                    if isinstance(a, tuple) and a and a[0] == 'ref' and a[1] in env:
-                        e0['#arg%d' % i] = env[a[1]]
-                        e0['_%d' % (1 + i)] = ('ref', '#arg%d' % i)
+                    if isinstance(a, tuple) and a and a[0] == 'ref':
+                        # a reference into the caller's frame: hand over what it points at, re-boxed in the callee's frame
+                        tgt = deref(R0, env, a, depth=1)
+                        if tgt is not UNKNOWN:
+                            e0['#arg%d' % i] = tgt
+                            e0['_%d' % (1 + i)] = ('ref', '#arg%d' % i)
                     else:
                         e0['_%d' % (1 + i)] = a
             rs = returns(mir, cb, e0, call_oracle, field_oracle, depth - 1)
